@@ -363,7 +363,7 @@ pub fn run(tier: Tier) -> ! {
     }
     prepare_models();
     // predict
-    let pool = ["", "a", "あい", "a b", "a/b", "a\\b", "ab12", "a\0b", "火星猫だ", "abab", "e\u{301}ab"];
+    let pool = ["", "a", "あい", "a b", "a/b", "a\\b", "ab12", "a\0b", "火星猫だ", "abab", "e\u{301}ab", "abab ab12 あいa/b\\ 火星猫だ abab ab12 あいa/b 火星猫だ abab ab12 あいa 12ab ａｂ１２ abab ab12 あいa/b 火星猫だ"];
     let mut streams: Vec<String> = vec![];
     let maxl = tier.pick(2, 3);
     for n in 1..=maxl {
